@@ -1625,6 +1625,49 @@ func (ev *Evaluator) native(pos token.Pos, fn *types.Func, recv Value, args []Va
 			out[i] = S(f)
 		}
 		return NewSlice(out...), true
+	case "strings.SplitN":
+		s, sep, n := argStr(0), argStr(1), argLin(2)
+		if !s.IsConst() || !sep.IsConst() || !n.IsConst() {
+			ev.fail(pos, "SplitN of symbolic string")
+		}
+		fs := strings.SplitN(s.Const(), sep.Const(), int(n.C))
+		out := make([]Value, len(fs))
+		for i, f := range fs {
+			out[i] = S(f)
+		}
+		return NewSlice(out...), true
+	case "strings.Index", "strings.IndexByte", "strings.Count":
+		a, b := argStr(0), args[1]
+		if !a.IsConst() {
+			ev.fail(pos, "%s of symbolic string", full)
+		}
+		switch bv := b.(type) {
+		case Str:
+			if !bv.IsConst() {
+				ev.fail(pos, "%s of symbolic string", full)
+			}
+			if full == "strings.Count" {
+				return K(int64(strings.Count(a.Const(), bv.Const()))), true
+			}
+			return K(int64(strings.Index(a.Const(), bv.Const()))), true
+		case Lin:
+			if bv.IsConst() {
+				return K(int64(strings.IndexByte(a.Const(), byte(bv.C)))), true
+			}
+		}
+		ev.fail(pos, "%s: unsupported arguments", full)
+	case "strings.IndexAny", "strings.ContainsAny", "strings.EqualFold":
+		a, b := argStr(0), argStr(1)
+		if !a.IsConst() || !b.IsConst() {
+			ev.fail(pos, "%s of symbolic string", full)
+		}
+		switch full {
+		case "strings.IndexAny":
+			return K(int64(strings.IndexAny(a.Const(), b.Const()))), true
+		case "strings.ContainsAny":
+			return strings.ContainsAny(a.Const(), b.Const()), true
+		}
+		return strings.EqualFold(a.Const(), b.Const()), true
 	case "strings.TrimSpace", "strings.ToLower":
 		s := argStr(0)
 		if !s.IsConst() {
